@@ -157,6 +157,25 @@ theorem C18_locations_map_order_irrelevant (shuffle : Nat → List (StdKey × Sp
     cases o <;> cases o' <;> simp only [Option.map_some, Option.map_none] at h3 ⊢
     rw [detl_forget h3]
 
+/-- the same for `parse_metadata` (the metadata-only entry point runs the same collector over the metadata
+    events): re-enumerating `locations.metadata` after every event changes neither the diagnostics nor the
+    panic flag nor any field of the returned state other than the order of that map -/
+theorem C18_locations_map_order_irrelevant_metadata (shuffle : Nat → List (StdKey × Span) → List (StdKey × Span))
+    (hsh : ∀ i m, (shuffle i m).Perm m) (env : Env) (input : Str) :
+    (parseMetadataO (α := α) shuffle env input).diags = (parseMetadata (α := α) env input).diags ∧
+    (parseMetadataO (α := α) shuffle env input).panic = (parseMetadata (α := α) env input).panic ∧
+    (parseMetadataO (α := α) shuffle env input).output.map (setLocs []) =
+      (parseMetadata env input).output.map (setLocs []) := by
+  obtain ⟨h1, h2, h3⟩ := detl_parseEvents (α := α) shuffle hsh env input (pullMetaEvents (α := α) env.cs env.ext input).1.toList
+  unfold parseMetadataO parseMetadata
+  refine ⟨h1.symm, ?_, ?_⟩
+  · simp only [h2]; rfl
+  · simp only
+    generalize (parseEvents env input (pullMetaEvents (α := α) env.cs env.ext input).1.toList).output = o at h3
+    generalize (parseEventsO shuffle env input (pullMetaEvents (α := α) env.cs env.ext input).1.toList).output = o' at h3
+    cases o <;> cases o' <;> simp only [Option.map_some, Option.map_none] at h3 ⊢
+    rw [detl_forget h3]
+
 /-- every event keeps "same map entries in another order": the step of the theorem above -/
 theorem C18_locations_map_order_step (env : Env) (input : Str) (ev : Ev α) (s s' : Col α) (h : Rl s s') :
     Rl (processEvent env input ev s).2 (processEvent env input ev s').2 :=
